@@ -51,6 +51,8 @@ def run(ctx):
     ctx.do(rule_optimiser)
     ctx.do(rule_all_answers_filtered)
     ctx.do(rule_filters_only_grow)
+    from .hidden_state import rule_no_hidden_state
+    ctx.do(rule_no_hidden_state, "C12.history-independence")
 
 
 def _op_chain(fi):
